@@ -37,8 +37,8 @@ TB_COMMON = ['Verus 0.2026.09.13 (rust_verify, vstd)', 'Z3 (bundled with Verus)'
 
 A_WORLD = [
     'A-quote: the generated archetype / world code is obtained by evaluating the generator functions of macros/src/generate/world.rs as text templates for fixed schemas '
-    '(WorldS { #[archetype_id(7)] ArchA(CompX, CompY), ArchB(CompX, CompZ) } in both tiers; in the thorough tier also WorldU { ArchP(CompX) } and '
-    'WorldT { ArchP(X, Y, Z), #[archetype_id(200)] ArchQ(Z, X, Y), ArchR(Y, #[component_id(9)] Z, X) }; opaque Clone component types) with gv/quoteinst.py; assumed: quote! interpolation / repetition '
+    '(WorldS { #[archetype_id(7)] ArchA(CompX, CompY), #[archetype_id(3)] ArchB(CompX, CompZ) } (ids deliberately not ascending in declaration order) in both tiers; in the thorough tier also WorldU { ArchP(CompX) } and '
+    'WorldT { #[archetype_id(200)] ArchP(X, Y, Z), #[archetype_id(2)] ArchQ(Z, X, Y), ArchR(Y, #[component_id(9)] Z, X) }; opaque Clone component types) with gv/quoteinst.py; assumed: quote! interpolation / repetition '
     'behave as documented, convert_case Pascal->snake is the usual conversion for these identifiers, the archetype / component ids are the ones DataWorld::new computes for these declarations (that rule is verified under C15). '
     'Universality over world declarations is not claimed.',
     'R-world: the instantiated text is verified after the named rules of gv/worldgen.py (R-tag marker types because `struct A { data: StorageN<A, ..> }` is a cyclic self-reference for Verus; '
@@ -59,8 +59,8 @@ def template_jobs(cfgs, threads=4):
 
 def world_jobs(cfgs, threads=4, n=2):
     """the code ecs_world! generates for a schema + the traits it implements (R-quote, R-world), over StorageN:
-    n = 2: WorldS { ArchA#7(CompX, CompY), ArchB(CompX, CompZ) } (main schema, also used by the templates unit);
-    n = 1: WorldU { ArchP(CompX) };   n = 3: WorldT { ArchP(X, Y, Z), ArchQ#200(Z, X, Y), ArchR(Y, Z#9, X) }"""
+    n = 2: WorldS { ArchA#7(CompX, CompY), ArchB#3(CompX, CompZ) } (main schema, also used by the templates unit);
+    n = 1: WorldU { ArchP(CompX) };   n = 3: WorldT { ArchP#200(X, Y, Z), ArchQ#2(Z, X, Y), ArchR(Y, Z#9, X) }"""
     return [Job('world', c, n, build.build_world_job, threads=threads) for c in cfgs]
 
 
